@@ -90,6 +90,14 @@ func init() {
 			}
 			return m.tb.Const(64, uint64(int64(v))), true
 		},
+		"vParamDef": func(m *Machine, f *Frame, a []value) (value, bool) {
+			name := strArg(a[0])
+			v, ok := m.params[name]
+			if !ok {
+				return a[1], true
+			}
+			return m.tb.Const(64, uint64(int64(v))), true
+		},
 		"vChoice": func(m *Machine, f *Frame, a []value) (value, bool) {
 			n := m.concInt(a[0].(*Term), true, "vChoice")
 			return m.tb.Const(64, uint64(m.chooseN(n))), true
